@@ -2,10 +2,12 @@
 """writes MANIFEST.json from bin/hwprops.py (kept in sync with what is actually implemented)."""
 import json, os, sys
 sys.path.insert(0, os.path.dirname(os.path.abspath(__file__)))
-from hwprops import PROPS, NOT_APPLICABLE, MANIFEST_TEXT
+from hwprops import PROPS, NOT_APPLICABLE, MANIFEST_TEXT, NOT_READY
 
 checks = []
 for pid in sorted(PROPS):
+    if pid in NOT_READY:
+        continue
     t = MANIFEST_TEXT[pid]
     checks.append(dict(
         property_id=pid,
@@ -28,7 +30,7 @@ m = dict(
         source_commits=[],
         add_only=True,
     ),
-    engines=[dict(name="lean4-model+go-correspondence", path="/verif/lean", serves_properties=sorted(PROPS),
+    engines=[dict(name="lean4-model+go-correspondence", path="/verif/lean", serves_properties=sorted(p for p in PROPS if p not in NOT_READY),
                   kind_free_text="Lean 4 models + theorems (lake project HW, driver hwdriver); Go correspondence harnesses injected by overlay; bin/check orchestrates")],
     checks=checks,
     notes="See DESIGN.md. Every check: (1) regenerates facts from source and rebuilds + audits the Lean theorems, (2) builds the harness against /repo's working tree, (3) runs real code and Lean model on the same inputs, (4) evaluates the property's spec on the implementation's output.",
